@@ -152,6 +152,8 @@ def check(chk: Check) -> None:
                     parsers += [("generic", "parse_jelly_to_graph"), ("generic", "parse_jelly_grouped")]
                 jobs.append(dict(physical=physical, logical=flat_lt if pol.framing != "per-statement" else 0, name=name, stmts=stmts, policy=pol, sizes=sizes, parsers=parsers, rdf11=rdf11, ns=(name == "repeats" and pol.ids != "explicit")))
     for res in pmap(run, jobs):
+        if res is None:
+            continue
         chk.functions.update(res["funcs"])
         jb = res["job"]
         for p in res["paths"]:
@@ -176,7 +178,7 @@ def check(chk: Check) -> None:
                     chk.fail(rule, inst, f"pyjelly.{key}:namespace-events", f"namespace declarations delivered {ns_got} differ from the stream's {p['want_ns']}")
                 else:
                     chk.ok(rule, inst, {"statements": len(stmts_got), "rows": p["rows"][:2]})
-    dispatch_tables(chk)
+    chk.part("dispatch", lambda: dispatch_tables(chk))
 
 
 def c01_where(site: str) -> str:
